@@ -419,6 +419,7 @@ def run(ctx, rep, cases=None):
                 "non-trivial = the expression has an operation node or depends on parameters; distinct = distinct (expression, rows)")
     tp = common.use_repo()
     import torch
+    torch.set_num_threads(1)      # tiny tensors only: intra-op threads cost milliseconds per call on a busy machine
     if cases is None:
         cases = [make_case(ctx, i) for i in range(ctx.scale(280, 4000))]
         cases += [make_depprod_case(ctx, 100000 + i) for i in range(ctx.scale(6, 40))]
@@ -549,6 +550,7 @@ def run(ctx, rep, cases=None):
         rot3_cases(ctx, rep, [make_rot3_case(ctx, 200000 + i) for i in range(ctx.scale(40, 400))])
         history_cases(ctx, rep, [make_history(ctx, 300000 + i) for i in range(ctx.scale(40, 500))])
         order_cases(ctx, rep, [make_order_case(ctx, 400000 + i) for i in range(ctx.scale(24, 300))])
+        argtype_cases(ctx, rep, [make_argtype_case(ctx, 500000 + i) for i in range(ctx.scale(40, 400))])
         opaque_histories(ctx, rep)
         opaque_cases(ctx, rep)
 
@@ -939,13 +941,44 @@ def sub_paths(node, path=()):
     return out          # boundaries: the root object only (`.boundary` of a motion is a motion of the boundary)
 
 
+def mixed_param_node(rng):
+    """expressions whose parameter functions read TWO parameters each (t and D): evaluating one of them leaves a
+    partially evaluated function object behind — the place where copies can share state"""
+    tD = lambda base: ("+", ("+", c(base), ("*", c(dy(rng, -1, 1, 4) or Fr(1, 2)), v("t"))), ("*", c(dy(rng, -1, 1, 4) or Fr(-1, 2)), v("D")))
+    def leaf():
+        k = rng.choice(["circle", "par", "interval-shift"])
+        if k == "circle":
+            return Node("circle", "x", [PF([tD(dy(rng, -2, 2)), tD(dy(rng, -2, 2))]), PF([("+", c(dy(rng, 0.5, 2)), ("*", c(Fr(1, 2)), v("t")))])])
+        if k == "par":
+            sh = [tD(Fr(0)), tD(Fr(0))]
+            o, d1, d2 = [dy(rng, -2, 2), dy(rng, -2, 2)], [dy(rng, 1, 3), dy(rng, -1, 1)], [dy(rng, -1, 1), dy(rng, 1, 3)]
+            cor = lambda q_: PF([("+", c(q_[0]), sh[0]), ("+", c(q_[1]), sh[1])])
+            return Node("par", "x", [cor(o), cor([o[0] + d1[0], o[1] + d1[1]]), cor([o[0] + d2[0], o[1] + d2[1]])])
+        return Node("translate", "x", [PF([tD(Fr(0)), tD(Fr(1))])], [Gen(rng, params=[]).prim2("x")])
+    shape = rng.choice(["leaf", "union", "cut", "translate", "rotate"])
+    if shape == "leaf":
+        return leaf()
+    if shape in ("union", "cut"):
+        return Node(shape, None, [], [leaf(), leaf()])
+    if shape == "translate":
+        return Node("translate", "x", [PF([tD(Fr(1)), c(Fr(0))])], [leaf()])
+    a_ = tD(Fr(3, 5))
+    return Node("rotate", "x", [PF([a_, c(Fr(-4, 5)), c(Fr(4, 5)), a_]), PF([c(Fr(0)), c(Fr(1))])], [leaf()])
+
+
 def make_history(ctx, idx):
     rng = ctx.rng
-    while True:
-        cs = make_case(ctx, idx)
-        node = geomgen.from_json(cs["dom"])
-        if node.depth() >= 2 or rng.random() < 0.3:
-            break
+    if rng.random() < 0.35:
+        node = mixed_param_node(rng)
+        k = rng.choice([1, 2, 3])
+        cs = dict(id=idx, mode="mixed-params", dom=node.describe(), pvars=["t", "D"], k=k,
+                  rows=[{p: [str(Fr(rng.randint(0, 16), 16))] for p in ("t", "D")} for _ in range(k)])
+    else:
+        while True:
+            cs = make_case(ctx, idx)
+            node = geomgen.from_json(cs["dom"])
+            if node.depth() >= 2 or rng.random() < 0.3:
+                break
     pv = cs["pvars"]
 
     def rowset():
@@ -957,6 +990,11 @@ def make_history(ctx, idx):
     steps = [dict(path=[], rows=0), dict(path=rng.choice(subs), rows=1), dict(path=[], rows=1), dict(path=rng.choice(subs), rows=0),
              dict(path=[], rows=2), dict(path=[], rows=0)]
     return dict(id=idx, kind="history", mode=cs["mode"], dom=cs["dom"], pvars=pv, rowsets=rowsets, steps=steps)
+
+
+def DIM_OF_DATA(h, root):
+    """parameter variables that are coordinates of a factor (dependent product with data): `D(s=...)` slices, it does not substitute"""
+    return [p for p in h["pvars"] if p in root.vars()]
 
 
 def node_at(node, path):
@@ -990,9 +1028,17 @@ def history_cases(ctx, rep, hists):
                 lines.append(f"contains {ATOL} {RTOL} {BATOL} {mnode.tokens()} {env_tokens(pt)} {env_tokens(envs[i])}")
             e["cands"] = cands
             st.append(e)
-        plan.append((h, root, st))
+        # evaluated copies `D(**row)` of the live object: the box of the copy = the box at that single row
+        ev = []
+        if h["pvars"] and not any(DIM_OF_DATA(h, root)):
+            for rs_i in (1, 2, 1):
+                row = h["rowsets"][rs_i]["rows"][0]
+                env = {p: [Fr(a) for a in row[p]] for p in h["pvars"]}
+                ev.append(dict(row=row, line=len(lines)))
+                lines.append(f"bbox {root.tokens()} 1 {env_tokens(env)}")
+        plan.append((h, root, st, ev))
     replies = common.run_driver("C18", lines)
-    for h, root, st in plan:
+    for h, root, st, ev in plan:
         rep.count("mode:history")
         rep.count("history-of:" + h["mode"])
         try:
@@ -1059,6 +1105,66 @@ def history_cases(ctx, rep, hists):
                 break
             if not ok:
                 break
+        else:
+            # all calls answered correctly: now copies derived from the SAME live object — two evaluated copies, the earlier one
+            # asked again after the later one was made, then the parent once more
+            if not ev or root.kind == "bdry":
+                continue
+            copies = []
+            try:
+                for e_ in ev[:2]:
+                    copies.append(obj(**{p: torch.tensor([[float(Fr(e_["row"][p][0]))]]) for p in h["pvars"]}))
+            except Exception:  # noqa  (evaluation `D(**values)` itself is C17)
+                rep.count("history-evaluation-raised")
+                continue
+            d2 = 2 * sum(DIM[x] for x in root.vars())
+            seq = [(copies[0], ev[0], "first evaluated copy D(row A)", None), (copies[1], ev[1], "second evaluated copy D(row B)", None),
+                   (copies[0], ev[0], "FIRST evaluated copy D(row A) again, after D(row B) was made and used", None),
+                   (obj, None, "the parent again", None)]
+            if len(h["pvars"]) >= 2:
+                # partially evaluated copies: the first parameter fixed, the others supplied with the call
+                p0, rest = h["pvars"][0], h["pvars"][1:]
+                try:
+                    parts = [obj(**{p0: torch.tensor([[float(Fr(e_["row"][p0][0]))]])}) for e_ in ev[:2]]
+                    rp = [param_points(tp, torch, rest, [e_["row"]]) for e_ in ev[:2]]
+                    seq += [(parts[0], ev[0], f"first partially evaluated copy D({p0}=A) asked with the rest of row A", rp[0]),
+                            (parts[1], ev[1], f"second partially evaluated copy D({p0}=B) asked with the rest of row B", rp[1]),
+                            (parts[0], ev[0], f"FIRST partially evaluated copy D({p0}=A) again, after D({p0}=B) was made and used", rp[0]),
+                            (obj, None, "the parent again", None)]
+                except Exception:  # noqa
+                    rep.count("history-evaluation-raised")
+            for target, e_, name, with_params in seq:
+                try:
+                    if with_params is not None:
+                        box = target.bounding_box(with_params)
+                        model = replies[e_["line"]]
+                    elif e_ is None:
+                        rs = h["rowsets"][0]
+                        pr = param_points(tp, torch, h["pvars"], rs["rows"]) if rs["k"] else None
+                        if pr is None:
+                            continue
+                        box = target.bounding_box(pr)
+                        model = replies[st[0]["line"]]
+                    else:
+                        box = target.bounding_box()
+                        model = replies[e_["line"]]
+                    bt = box if isinstance(box, torch.Tensor) else torch.as_tensor(box, dtype=torch.float32)
+                    vals = [float(x) for x in bt.reshape(-1).tolist()]
+                except Exception as ex:  # noqa
+                    rep.fail(f"bounding_box of {name} raised {type(ex).__name__}: {str(ex)[:160]} (after the history {h['steps']})", h)
+                    break
+                if isinstance(box, torch.Tensor):
+                    with torch.no_grad():
+                        box.fill_(MARK)
+                rep.count("history-derived-objects-judged")
+                if not (model.startswith("flat ") or model.startswith("rows ")):
+                    continue
+                mv = [Fr(x) for r in model.split(" ", 1)[1].split(" ; ") for x in r.split()]
+                if len(vals) != len(mv) or any(abs(a - float(b)) > tol_of(mv) for a, b in zip(vals, mv)):
+                    row = e_["row"] if e_ else h["rowsets"][0]["rows"]
+                    rep.fail(f"the bounding box of {name} of `{root.tokens()[:70]}…` (parameters {row}) is {vals}, but the box of the expression at "
+                             f"these parameters is {[float(x) for x in mv]} — copies made from one parent influence each other or the parent" + marked(vals), h)
+                    break
 
 
 def opaque_histories(ctx, rep):
@@ -1237,7 +1343,200 @@ def order_cases(ctx, rep, cases):
                      f"(output of a product sampler, variables stored in the order {list(pts.space.keys())}) to {dict((v_, out.coordinates[v_][j].tolist()) for v_ in node.vars())} — outside the cube", cs)
 
 
+# ---------------------------------------------------------------------------------------------
+# the TYPE in which a constructor argument is given must not matter: Python numbers, lists of ints / floats, tuples,
+# numpy arrays, int / float32 / float64 tensors, 0-d tensors, callables returning any of these — same box
+
+FAMILIES = ["float", "int", "tuple", "np32", "np64", "npint", "tint", "t32", "t64", "fn32", "fn64", "fnint"]
+
+
+def as_rep(vals, fam, scalar=False, matrix=False):
+    """the constant `vals` (Fractions) in representation family `fam`; None if not applicable"""
+    import numpy as np
+    import torch
+    fl = [float(x) for x in vals]
+    integral = all(Fr(x).denominator == 1 for x in vals)
+    ints = [int(x) for x in vals] if integral else None
+    if fam in ("int", "npint", "tint", "fnint") and not integral:
+        return None
+    shape2 = (lambda l: [l[0:2], l[2:4]]) if matrix else (lambda l: l)
+    if fam == "float":
+        return fl[0] if scalar else shape2(fl)
+    if fam == "int":
+        return ints[0] if scalar else shape2(ints)
+    if fam == "tuple":
+        return fl[0] if scalar else (tuple(map(tuple, shape2(fl))) if matrix else tuple(fl))
+    if fam in ("np32", "np64", "npint"):
+        dt = {"np32": np.float32, "np64": np.float64, "npint": np.int64}[fam]
+        a = np.array(ints if fam == "npint" else fl, dtype=dt)
+        return a[0] if scalar else (a.reshape(2, 2) if matrix else a)
+    if fam in ("tint", "t32", "t64"):
+        dt = {"t32": torch.float32, "t64": torch.float64, "tint": torch.int64}[fam]
+        a = torch.tensor(ints if fam == "tint" else fl, dtype=dt)
+        return a[0] if scalar else (a.reshape(2, 2) if matrix else a)      # scalars: 0-d tensors
+    if fam in ("fn32", "fn64", "fnint"):
+        if matrix and fam == "fnint":
+            return None          # an integer matrix function breaks matmul / linalg.solve everywhere (not array_like usage)
+        dt = {"fn32": torch.float32, "fn64": torch.float64, "fnint": torch.int64}[fam]
+        a = torch.tensor(ints if fam == "fnint" else fl, dtype=dt)
+        if matrix:
+            return lambda t: a.reshape(1, 2, 2).repeat(len(t), 1, 1)
+        return lambda t: a.reshape(1, -1).repeat(len(t), 1)
+    raise ValueError(fam)
+
+
+def make_argtype_case(ctx, idx):
+    rng = ctx.rng
+    integral = rng.random() < 0.6
+    step = 1 if integral else 8
+    num = lambda lo, hi: Fr(rng.randint(lo * step, hi * step), step)
+    kind = rng.choice(["interval", "circle", "sphere", "par", "tri", "point", "translate", "rotate", "rotate", "rotate"])
+    args = {}
+    if kind == "interval":
+        lo = num(-3, 2)
+        args = dict(lb=[lo], ub=[lo + num(1, 4)])
+    elif kind == "circle":
+        args = dict(c=[num(-3, 3), num(-3, 3)], r=[num(1, 3)])
+    elif kind == "sphere":
+        args = dict(c=[num(-2, 2), num(-2, 2), num(-2, 2)], r=[num(1, 3)])
+    elif kind in ("par", "tri"):
+        while True:
+            o, a, b = [num(-3, 3), num(-3, 3)], [num(-3, 3), num(-3, 3)], [num(-3, 3), num(-3, 3)]
+            if abs((a[0] - o[0]) * (b[1] - o[1]) - (a[1] - o[1]) * (b[0] - o[0])) >= 1:
+                break
+        args = dict(o=o, c1=a, c2=b)
+    elif kind == "point":
+        args = dict(p=[num(-3, 3), num(-3, 3)])
+    elif kind == "translate":
+        args = dict(t=[num(-3, 3), num(-3, 3)])
+    else:
+        co, si = rng.choice([(Fr(3, 5), Fr(4, 5)), (Fr(5, 13), Fr(12, 13)), (Fr(0), Fr(1)), (Fr(-4, 5), Fr(3, 5)), (Fr(2), Fr(1))])
+        args = dict(m=[co, -si, si, co], c=[num(-3, 3), num(-3, 3)])
+    inner = None
+    if kind in ("translate", "rotate"):
+        inner = Gen(rng, params=[]).prim2("x").describe()
+    return dict(id=idx, kind="argtype", mode="argtype", what=kind, args={k_: [str(x) for x in v_] for k_, v_ in args.items()}, inner=inner)
+
+
+def argtype_node(cs):
+    a = {k_: [Fr(x) for x in v_] for k_, v_ in cs["args"].items()}
+    pf = lambda l: PF([c(x) for x in l])
+    w = cs["what"]
+    if w == "interval":
+        return Node("interval", "y", [pf(a["lb"]), pf(a["ub"])])
+    if w in ("circle", "sphere"):
+        return Node(w, "x" if w == "circle" else "z", [pf(a["c"]), pf(a["r"])])
+    if w in ("par", "tri"):
+        return Node(w, "x", [pf(a["o"]), pf(a["c1"]), pf(a["c2"])])
+    if w == "translate":
+        return Node("translate", "x", [pf(a["t"])], [geomgen.from_json(cs["inner"])])
+    if w == "rotate":
+        return Node("rotate", "x", [pf(a["m"]), pf(a["c"])], [geomgen.from_json(cs["inner"])])
+    return None
+
+
+def argtype_build(tp, cs, fams):
+    """the domain with argument `name` given in family fams[name]; None if a family is not applicable"""
+    a = {k_: [Fr(x) for x in v_] for k_, v_ in cs["args"].items()}
+    w = cs["what"]
+    D = tp.domains
+    r = {}
+    for name, vals in a.items():
+        r[name] = as_rep(vals, fams[name], scalar=name in ("lb", "ub", "r"), matrix=name == "m")
+        if r[name] is None:
+            return None
+    if w == "interval":
+        return D.Interval(tp.spaces.R1("y"), r["lb"], r["ub"])
+    if w == "circle":
+        return D.Circle(tp.spaces.R2("x"), r["c"], r["r"])
+    if w == "sphere":
+        return D.Sphere(tp.spaces.R3("z"), r["c"], r["r"])
+    if w == "par":
+        return D.Parallelogram(tp.spaces.R2("x"), r["o"], r["c1"], r["c2"])
+    if w == "tri":
+        return D.Triangle(tp.spaces.R2("x"), r["o"], r["c1"], r["c2"])
+    if w == "point":
+        return D.Point(tp.spaces.R2("x"), r["p"])
+    inner = geomgen.from_json(cs["inner"]).to_tp(tp)
+    if w == "translate":
+        return D.Translate(inner, r["t"])
+    return D.Rotate(inner, r["m"], r["c"])
+
+
+def argtype_cases(ctx, rep, cases):
+    tp = common.use_repo()
+    import torch
+    lines = []
+    for cs in cases:
+        node = argtype_node(cs)
+        lines.append(f"bbox {node.tokens()} 1 0" if node is not None else "bbox")
+    replies = common.run_driver("C18", lines)
+    prow = tp.spaces.Points(torch.tensor([[0.5]]), tp.spaces.R1("t"))
+    for cs, model in zip(cases, replies):
+        node = argtype_node(cs)
+        rep.count("mode:argtype")
+        rep.count("argtype:" + cs["what"])
+        if node is not None:
+            want = [Fr(x) for x in model.split()[1:]]
+            pts = leaf_points(node, {}, ctx.rng, 2)
+        else:
+            p_ = [Fr(x) for x in cs["args"]["p"]]
+            want = [p_[0] - Fr(1, 10), p_[0] + Fr(1, 10), p_[1] - Fr(1, 10), p_[1] + Fr(1, 10)]
+            pts = [p_]
+        names = list(cs["args"])
+        combos = [{n_: f for n_ in names} for f in FAMILIES]
+        for _ in range(4):      # mixed: every argument in its own family
+            combos.append({n_: ctx.rng.choice(FAMILIES) for n_ in names})
+        seen = []
+        rep.case(dict(argtype=cs["what"], args=cs["args"], inner=cs["inner"]), True,
+                 sample=dict(constructor=cs["what"], arguments=cs["args"], inner=cs["inner"], model_box=[str(x) for x in want],
+                             representations="each argument as " + ", ".join(FAMILIES)), kind="argtype")
+        for fams in combos:
+            if cs["what"] == "point" and any(f.startswith("fn") for f in fams.values()):
+                continue        # a moving point has the hull of its positions as box, not the point ± 0.1
+            try:
+                dom = argtype_build(tp, cs, fams)
+            except Exception as ex:  # noqa  (constructor rejects the type: not a box question)
+                rep.count("argtype-constructor-raised:" + type(ex).__name__)
+                continue
+            if dom is None:
+                continue
+            uses_fn = any(f.startswith("fn") for f in fams.values())
+            tag = dict(cs, families=fams)
+            try:
+                box = dom.bounding_box(prow) if uses_fn else dom.bounding_box()
+                bt = torch.as_tensor(box)
+                bx = [float(x) for x in bt.reshape(-1).tolist()]
+            except Exception as ex:  # noqa
+                rep.fail(f"bounding_box of {cs['what']} raised {type(ex).__name__}: {str(ex)[:160]} when its arguments are given as {fams}", tag)
+                break
+            rep.count("argtype-boxes-judged")
+            for f in set(fams.values()):
+                if f not in seen:
+                    seen.append(f)
+                    rep.count("argtype-family:" + f)
+            tl = tol_of(want)
+            if list(bt.shape) != [len(want)]:
+                rep.fail(f"bounding_box of {cs['what']}({cs['args']}) has shape {list(bt.shape)} instead of [{len(want)}] when its arguments are given as {fams}: {bx}", tag)
+                break
+            if all(abs(a - float(b)) <= tl for a, b in zip(bx, want)):
+                continue
+            outside = [p_ for p_ in pts if any(float(p_[ax]) < bx[2 * ax] - tl or float(p_[ax]) > bx[2 * ax + 1] + tl for ax in range(len(p_)))]
+            msg = (f"the bounding box of {cs['what']}({cs['args']}{', inner ' + geomgen.from_json(cs['inner']).tokens() if cs['inner'] else ''}) depends on the TYPE its arguments "
+                   f"are given in: as {fams} (box dtype {bt.dtype}) it is {bx}, for plain floats / exactly it is {[float(x) for x in want]}")
+            if outside:
+                rep.fail(msg + f"; the point {[float(x) for x in outside[0]]} of the domain lies outside", tag)
+            elif cs["what"] not in ("translate", "rotate"):
+                rep.fail(msg + " — not tight", tag)
+            else:
+                rep.disagree("drivers/C18.lean bbox: " + msg, tag, bx, [float(x) for x in want])
+            break
+
+
 def replay(ctx, obj):
+    common.use_repo()
+    import torch
+    torch.set_num_threads(1)
     rep = common.Report(ctx)
     lean = common.lean_check("C18")
     inp = (obj.get("failing_input") or obj.get("first"))["input"]
@@ -1247,6 +1546,8 @@ def replay(ctx, obj):
         rot3_cases(ctx, rep, [inp])
     elif inp.get("kind") == "order":
         order_cases(ctx, rep, [{k_: inp[k_] for k_ in ("id", "kind", "mode", "dom", "pvars", "rows", "k")}])
+    elif inp.get("kind") == "argtype":
+        argtype_cases(ctx, rep, [{k_: inp[k_] for k_ in ("id", "kind", "mode", "what", "args", "inner")}])
     elif inp.get("kind") == "history":
         history_cases(ctx, rep, [inp])
     elif inp.get("kind") == "opaque-history":
